@@ -123,7 +123,22 @@ pub fn c06_program(ctx: &mut WorkerCtx, p: &Plan, idx: u64, tag: &str, code: &[u
                     // cheap screen so that a miscompiled hang does not stall the guarded run
                     let cap = canon.trace.len() + 4;
                     let b0 = diff::screen_budget(canon);
-                    let (r0, log0) = diff::run_logged(&comp, Mode::Limited(b0), script, cap, Arm::default());
+                    // (the screen runs under the guard allocator as well: a stray write must never reach the
+                    // checker's own heap)
+                    ctx.mark(idx, sub_code(backend, w, level, PLACE_LEFT), code);
+                    let (r0, log0) = diff::run_logged(&comp, Mode::Limited(b0), script, cap, Arm { place: PLACE_LEFT, fail_k: 0, fail_min: 0, zeroed_only: false });
+                    if r0.alloc.canary_bad != 0 {
+                        let f = Failure {
+                            class: "heap-overrun".into(),
+                            mode: "limited:guard-left".into(),
+                            observed: diff::trace_str(&log0),
+                            expected: diff::trace_str(&canon.trace),
+                            first_diff: 0,
+                            detail: "bytes next to an allocation were overwritten (canary damaged)".into(),
+                        };
+                        ctx.fail(failure_json("C06", backend, w, level, code, script, &f));
+                        continue;
+                    }
                     if r0.finished != Some(true) || log0 != canon.trace {
                         // behavioural disagreement is C01..C04's business; count and skip
                         ctx.count("skipped_behaviour_differs", 1);
